@@ -138,11 +138,6 @@ def avoid_collisions(context, box, containing_block, outer=True):
     box_width = box.margin_width() if outer else box.border_width()
     box_height = box.margin_height() if outer else box.border_height()
 
-    if box.border_height() == 0 and box.is_floated():
-        return (
-            containing_block.content_box_x(), position_y,
-            containing_block.width)
-
     while True:
         colliding_shapes = []
         for shape in excluded_shapes:
